@@ -1,4 +1,5 @@
 import ast
+import keyword
 import operator
 import re
 from functools import reduce
@@ -130,7 +131,7 @@ def parse_boolean_expr(expr, variable_hook, operator_mapping):
     """Parses the expression into an AST and build a custom expression tree"""
     if expr.strip() == "":
         raise SyntaxError("Empty expression")
-    if "!" not in expr and " " not in expr:
+    if expr.isidentifier() and not keyword.iskeyword(expr):
         return variable_hook(expr)
     expr = replace_operators(expr)
     tree = ast.parse(expr, mode="eval")
